@@ -6,7 +6,8 @@ WT=/tmp/verif_fixcheck_wt
 TD=/tmp/verif_fixcheck_target
 OUT=${1:-/tmp/verif_fixcheck.log}
 : > "$OUT"
-for c in $(git -C /repo log --reverse --format=%h --grep '^fix:' ); do
+# FROM=<commit>: only the fix commits after that commit
+for c in $(git -C /repo log --reverse --format=%h --grep '^fix:' ${FROM:+$FROM..HEAD}); do
   git -C /repo worktree remove --force $WT 2>/dev/null
   git -C /repo worktree add -q --detach $WT $c || exit 2
   res=$(cd $WT && CARGO_TARGET_DIR=$TD cargo nextest run --workspace --no-fail-fast --tool-config-file pb:/w/lib/nextest.toml --profile pb --test-threads 8 --offline 2>&1 | grep -E "Summary|FAIL" | sort -u | tr '\n' ' ')
